@@ -97,7 +97,10 @@ func genPatchList(r *fw.Rand, doc map[string]interface{}, maxLen int, aliasRisk 
 	n := r.Range(1, maxLen)
 	for tries := 0; len(pl.Patches) < n && tries < 60; tries++ {
 		var p map[string]interface{}
-		if r.Chance(1, 3) {
+		if len(pl.Patches) > 0 && r.Chance(1, 8) {
+			// the same patch twice in a row: every patch of a list counts (an ietf add /x/- appends twice)
+			p = oracle.DeepCopy(pl.Patches[len(pl.Patches)-1]).(map[string]interface{})
+		} else if r.Chance(1, 3) {
 			ops, copied := gen.RandValidJSONPatch(r, ietfDocView(cur), 3, aliasRisk)
 			if copied && aliasRisk {
 				pl.AliasRisk = true
